@@ -1101,7 +1101,59 @@ pub mod backend {
         all
     }
 
+    /// A client event type that the game had registered as a regular event (and already written
+    /// to) before handing it to replicon: in singleplayer the pending event is still handled by
+    /// the local server logic, once.
+    pub fn pre_registered_event(events_before: usize) -> Result<(), (String, String)> {
+        use crate::events::*;
+        let mut app = App::new();
+        app.init_resource::<Time>().add_plugins(
+            RepliconPlugins
+                .set(ServerPlugin { tick_policy: TickPolicy::EveryFrame, ..Default::default() })
+                .set(RepliconSharedPlugin { auth_method: AuthMethod::None }),
+        );
+        app.add_event::<C1>();
+        for n in 1..=events_before as u8 {
+            app.world_mut().send_event(C1(seq(CK::C1.tag(), n)));
+        }
+        register(&mut app);
+        app.finish();
+        app.cleanup();
+        let mut seen: Vec<(u8, Option<u64>)> = Vec::new();
+        for _ in 0..4 {
+            app.update();
+            seen.extend(drain_observed(&mut app).into_iter().map(|o| (o.n, o.from)));
+        }
+        for n in 1..=events_before as u8 {
+            let k = seen.iter().filter(|(m, _)| *m == n).count();
+            if k != 1 {
+                return Err(("pre-registered-event".into(), format!("client event #{n} was written before the type was registered with replicon ({events_before} such events); in singleplayer it was handled locally {k} time(s) instead of once")));
+            }
+        }
+        if seen.iter().any(|(_, from)| *from != Some(SERVER.to_bits())) {
+            return Err(("pre-registered-event".into(), "a locally handled client event did not carry the local-server identity".into()));
+        }
+        Ok(())
+    }
+
     pub fn part(tier: Tier, out: &mut Outcome) -> Result<(), crate::explore::MachineryError> {
+        for k in 1..=3usize {
+            out.evaluations += 1;
+            out.nontrivial += 1;
+            out.transitions += 4;
+            let r = guarded(|| pre_registered_event(k)).unwrap_or_else(|(m, l)| Err(("panic".into(), format!("panic: {m} ({l})"))));
+            if let Err((oracle, detail)) = r {
+                out.violation_total += 1;
+                let dir = std::path::Path::new(&check::verif_root()).join("replays").join("C13");
+                let _ = std::fs::create_dir_all(&dir);
+                let path = dir.join(format!("{:016x}.json", crate::explore::hash_of(&("prereg", k))));
+                let doc = json!({"property": "C13", "kind": "c13-backend", "side": "prereg", "history": [], "events_before": k,
+                    "violation": {"property": "C13", "oracle": oracle, "detail": detail}});
+                std::fs::write(&path, serde_json::to_string_pretty(&doc).unwrap()).unwrap();
+                out.new_violations.push(path);
+                break;
+            }
+        }
         let len = if tier.quick() { 3 } else { 4 };
         let hs = histories(len);
         let findings = check::load_findings();
@@ -1163,6 +1215,19 @@ pub mod backend {
     pub fn replay(doc: &serde_json::Value) -> i32 {
         let h: Vec<BOp> = serde_json::from_value(doc["history"].clone()).expect("history");
         let side = doc["side"].as_str().unwrap_or("client");
+        if side == "prereg" {
+            let k = doc["events_before"].as_u64().unwrap_or(1) as usize;
+            return match pre_registered_event(k) {
+                Ok(()) => {
+                    println!("replay passes: no violation");
+                    0
+                }
+                Err((oracle, detail)) => {
+                    println!("VIOLATION property=C13 replay=<file> oracle={oracle} :: {detail}");
+                    1
+                }
+            };
+        }
         println!("side {side} history {h:?}");
         let r = if side == "client" { client_history(&h) } else { server_history(&h) };
         match r {
